@@ -53,6 +53,9 @@ type c13Case struct {
 	Nodes []c13Node `json:"nodes"`
 	Paths []string  `json:"paths"`         // {B}/… absolute, or relative to Cwd
 	Cwd   string    `json:"cwd,omitempty"` // relative to base; set => run serially after chdir
+	// spelled-path cases (c13_spell.go, classes "spell:*", run in child processes)
+	Spell   string `json:"spell,omitempty"`   // template of the spelling of the first hosted directory, e.g. "S/..@D"
+	Collide bool   `json:"collide,omitempty"` // another given path carries the base name the spelled one denotes
 }
 
 var c13PlainPool = []string{"a", "b", "c", "d", "f", "x", "y", "a.txt", "a-b", "a.b", "a b", "a+b", "a!", "a#",
@@ -181,6 +184,12 @@ type c13ClassDef struct {
 	// Primary: the oracle clauses this class is about; a failure of one of them
 	// gets the bare class key, any other clause gets key "<class>/<clause>".
 	Primary []string
+	// Spell: generated by c13SpellGen and executed in child processes (one
+	// working directory per case); SampleQ/SampleT cases per run.
+	Spell bool
+	// Alias: a failure of clause k is reported under key Alias[k] (the input
+	// reaches an already recorded class of the oracle by another route).
+	Alias map[string]string
 }
 
 var c13Classes = []c13ClassDef{
@@ -210,6 +219,18 @@ var c13Classes = []c13ClassDef{
 	{Key: "paths:symlink-dangling-root", SampleQ: 3, SampleT: 10},
 	{Key: "paths:literal-ordinal-prefix", SampleQ: 5, SampleT: 20,
 		Primary: []string{"distinct", "resolve", "kind", "size", "origin", "missing", "extra"}},
+	// how the hosted paths are SPELLED, combined with base-name collisions (c13_spell.go)
+	{Key: "spell:dot", SampleQ: 40, SampleT: 1200, Spell: true},
+	{Key: "spell:dotdot", SampleQ: 40, SampleT: 1200, Spell: true},
+	{Key: "spell:sub-dotdot", SampleQ: 48, SampleT: 1200, Spell: true},
+	{Key: "spell:trailing-dot", SampleQ: 40, SampleT: 1200, Spell: true},
+	{Key: "spell:relative", SampleQ: 66, SampleT: 1320, Spell: true},
+	{Key: "spell:absolute", SampleQ: 48, SampleT: 1200, Spell: true},
+	{Key: "spell:via-symlinked-parent", SampleQ: 42, SampleT: 840, Spell: true},
+	// '.' in a working directory that was entered through a link: filepath.Abs
+	// yields the link, i.e. the recorded paths:symlink-dir-root input
+	{Key: "spell:symlinked-cwd", SampleQ: 12, SampleT: 48, Spell: true, Alias: map[string]string{"missing": "paths:symlink-dir-root"}},
+	{Key: "spell:fs-root", SampleQ: 8, SampleT: 64, Spell: true},
 }
 
 func c13Def(key string) c13ClassDef {
@@ -625,7 +646,7 @@ func c13Cases(e *Env) []c13Case {
 	var cases []c13Case
 	id := 0
 	for _, d := range c13Classes { // sampled classes: fixed number of witnesses
-		if d.Weight > 0 {
+		if d.Weight > 0 || d.Spell {
 			continue
 		}
 		for i := 0; i < e.Pick(d.SampleQ, d.SampleT); i++ {
@@ -646,6 +667,18 @@ func c13Cases(e *Env) []c13Case {
 				break
 			}
 			w -= d.Weight
+		}
+	}
+	// spelled paths: an own stream, so that the list above is what it always was
+	rs := vk.NewRng(vk.Mix(e.Seed ^ vk.HashStr("c13spell"+e.Tier)))
+	sid := 0
+	for _, d := range c13Classes {
+		if !d.Spell {
+			continue
+		}
+		for k := 0; k < e.Pick(d.SampleQ, d.SampleT); k++ {
+			cases = append(cases, c13SpellGen(sid, d.Key, k, rs.Fork()))
+			sid++
 		}
 	}
 	return cases
@@ -723,6 +756,7 @@ type c13Obs struct {
 	Items    int            `json:"items_listed"`
 	Special  map[string]int `json:"special_entries_listed,omitempty"`
 	Rejected string         `json:"scan_rejected,omitempty"`
+	Tops     []string       `json:"top_level_names,omitempty"` // spelled-path cases only
 	Fails    []c13Fail      `json:"fails,omitempty"`
 }
 
@@ -912,6 +946,17 @@ func c13Check(c c13Case, base, cwd string) c13Result {
 		}
 	}
 
+	if c.Spell != "" {
+		tops := map[string]bool{}
+		for _, it := range m.Items {
+			tops[strings.SplitN(it.RelPath, "/", 2)[0]] = true
+		}
+		for k := range tops {
+			o.Tops = append(o.Tops, k)
+		}
+		sort.Strings(o.Tops)
+	}
+
 	// --- every listed item against the entry it resolves to
 	mf, md := map[c13Ino]int{}, map[c13Ino]int{}
 	mnames := map[c13Ino]string{}
@@ -940,6 +985,9 @@ func c13Check(c c13Case, base, cwd string) c13Result {
 					o.fail("origin", "listed %q resolves to %s (inner path not preserved)", it.RelPath, p)
 				} else {
 					rootOf = p[:len(p)-len(parts[1])-1]
+					if rootOf == "" { // the given path is the file-system root
+						rootOf = "/"
+					}
 				}
 			}
 			if prev, ok := topRoot[parts[0]]; ok && prev != rootOf {
@@ -1120,30 +1168,15 @@ func runC13(e *Env) {
 	special := map[string]int{}
 	failKeys := map[string]int{}
 	sampled := map[string]any{}
+	spell := c13NewSpellAgg()
 	origWD, _ := os.Getwd()
 	hs, hserr := c13NewHistState()
 	if hserr != nil {
 		e.R.Inconcl("history stage: no loopback QUIC listeners: " + hserr.Error())
 	}
 
-	runOne := func(c c13Case, chdir bool) {
-		base := filepath.Join(work, c.ID)
-		defer os.RemoveAll(base)
-		e.R.Eval()
-		if err := c13Materialize(base, c.Nodes); err != nil {
-			e.R.Inconcl(c.ID + " materialize: " + err.Error())
-			return
-		}
-		cwd := origWD
-		if chdir {
-			cwd = filepath.Join(base, c.Cwd)
-			if err := os.Chdir(cwd); err != nil {
-				e.R.Inconcl(c.ID + " chdir: " + err.Error())
-				return
-			}
-			defer os.Chdir(origWD)
-		}
-		res := c13Check(c, base, cwd)
+	// account books one executed case: coverage, evidence, verdict.
+	account := func(c c13Case, base string, res c13Result) {
 		o := res.Obs
 		if res.Setup != "" {
 			e.R.Inconcl(c.ID + " " + res.Setup)
@@ -1174,7 +1207,7 @@ func runC13(e *Env) {
 		if len(o.Fails) > 0 {
 			a.Failing++
 		}
-		if _, ok := sampled[c.Class]; !ok && o.Rejected == "" {
+		if _, ok := sampled[c.Class]; !ok && o.Rejected == "" && (c.Spell == "" || c.Collide) {
 			sampled[c.Class] = map[string]any{"case": c, "observed": o}
 		}
 		mu.Unlock()
@@ -1189,6 +1222,9 @@ func runC13(e *Env) {
 		e.R.CountN("dirs_walked", o.Dirs)
 		e.R.CountN("resolver_lookups", o.Lookups)
 		e.R.CountN("items_listed", o.Items)
+		if c.Spell != "" {
+			c13SpellAccount(e, spell, c, o)
+		}
 		if len(o.Fails) == 0 {
 			// the history dimension (c13_history.go): the same scanned manifest
 			// used for k >= 2 real transfers
@@ -1207,7 +1243,9 @@ func runC13(e *Env) {
 		var order []string
 		for _, f := range o.Fails {
 			k := c.Class
-			if !prim[f.Clause] {
+			if alias, ok := def.Alias[f.Clause]; ok {
+				k = alias
+			} else if !prim[f.Clause] {
 				k = c.Class + "/" + f.Clause
 			}
 			if _, ok := byKey[k]; !ok {
@@ -1229,22 +1267,51 @@ func runC13(e *Env) {
 		}
 	}
 
-	var par, ser []c13Case
+	runOne := func(c c13Case, chdir bool) {
+		base := filepath.Join(work, c.ID)
+		defer os.RemoveAll(base)
+		e.R.Eval()
+		if err := c13Materialize(base, c.Nodes); err != nil {
+			e.R.Inconcl(c.ID + " materialize: " + err.Error())
+			return
+		}
+		cwd := origWD
+		if chdir {
+			cwd = filepath.Join(base, c.Cwd)
+			if err := os.Chdir(cwd); err != nil {
+				e.R.Inconcl(c.ID + " chdir: " + err.Error())
+				return
+			}
+			defer os.Chdir(origWD)
+		}
+		account(c, base, c13Check(c, base, cwd))
+	}
+
+	var par, ser, spelled []c13Case
 	for _, c := range cases {
-		if c.Cwd != "" {
+		if c.Spell != "" {
+			spelled = append(spelled, c)
+		} else if c.Cwd != "" {
 			ser = append(ser, c)
 		} else {
 			par = append(par, c)
 		}
 	}
+	// spelled paths: child processes, each with its own working directory
+	spellDone := make(chan struct{})
+	go func() {
+		defer close(spellDone)
+		c13RunSpelled(e, work, spelled, account)
+	}()
 	vk.ParallelDo(len(par), 16, func(i int) { runOne(par[i], false) })
 	for _, c := range ser { // relative paths need the process working directory: one at a time
 		runOne(c, true)
 	}
+	<-spellDone
 
 	// samples: real cases with what was observed, clean classes first
-	for _, k := range []string{"paths:dup-basename", "paths:same-path-twice", "entry:fifo", "paths:dot", "paths:path-and-subdir",
-		"tree:unicode", "paths:literal-ordinal-prefix", "entry:symlink-file"} {
+	for _, k := range []string{"paths:dup-basename", "spell:dot", "paths:same-path-twice", "entry:fifo", "spell:sub-dotdot", "paths:path-and-subdir",
+		"tree:unicode", "paths:literal-ordinal-prefix", "paths:dot", "entry:symlink-file"} {
 		if s, ok := sampled[k]; ok {
 			e.R.Sample(s)
 		}
@@ -1287,11 +1354,15 @@ func runC13(e *Env) {
 		if d.Weight > 0 {
 			need = e.Pick(15, 400)
 		}
+		if d.Spell {
+			need = e.Pick(d.SampleQ, d.SampleT) * 3 / 4
+		}
 		e.R.Require(n >= need, fmt.Sprintf("feature class %s: only %d case(s) completed, need %d", d.Key, n, need))
 	}
 	e.R.Require(tot.Lookups >= e.Pick(8000, 200000), fmt.Sprintf("only %d resolver lookups", tot.Lookups))
 	e.R.Require(tot.Files >= e.Pick(5000, 150000), fmt.Sprintf("only %d files walked", tot.Files))
 	e.R.Require(tot.ScanMode >= e.Pick(100, 3000), fmt.Sprintf("only %d cases through manifest.Scan", tot.ScanMode))
 	e.R.Require(special["fifo"] > 0 && special["symlink-file"] > 0, "no FIFO / symlink entry was ever listed: special-entry clause not exercised")
+	c13SpellFinish(e, spell)
 	c13HistFinish(e, hs)
 }
